@@ -1,7 +1,7 @@
 (* Properties_C04.v — C04: hop-by-hop and proxy credential headers are not relayed.
    Statements only; proofs live in HopProofs.v. The header ids and hop-by-hop flags come from
    gen/HdrTable_gen.v, regenerated from src/http/RegisteredHeaders* on every run. *)
-Require Import SquidV.Bytes SquidV.HopModel SquidV.HopProofs.
+Require Import SquidV.Bytes SquidV.HopModel SquidV.HopProofs SquidV.CondModel SquidV.HopRevalModel SquidV.HopRevalProofs.
 Require Import SquidV.gen.HdrTable_gen.
 Local Open Scope N_scope.
 
@@ -33,6 +33,28 @@ Theorem C04_response_no_standard_hop_by_hop_names : forall hs e nm,
   In e (resp_filter false hs) -> In nm std_hop_names -> ci_eqb (h_name e) (map N.of_nat nm) = false.
 Proof. exact resp_no_std_hop_names. Qed.
 Print Assumptions C04_response_no_standard_hop_by_hop_names.
+
+(* the revalidation path: after an origin 304 the stored header is HttpHeader::update(stored, 304 fields)
+   (model from property C14) and the same filter applies to it, so nothing hop-by-hop or Connection-named
+   (by the 304's own Connection field, which update() keeps) is relayed, for all stored and 304 header sets *)
+Theorem C04_revalidated_response_filter : forall old fresh e,
+  In e (resp_filter false (hdr_update old fresh)) ->
+  is_hopbyhop (hdr_id e) = false /\
+  (hdr_id e =? ID_PROXY_AUTHENTICATE) = false /\
+  is_member (conn_value (filter (fun h => negb (hdr_id h =? ID_PROXY_AUTHENTICATE)) (hdr_update old fresh))) (h_name e) = false /\
+  (In e old \/ In e fresh).
+Proof. exact reval_filter_sound. Qed.
+Print Assumptions C04_revalidated_response_filter.
+
+Theorem C04_connection_field_of_304_is_merged : forall old fresh c,
+  In c fresh -> (hdr_id c =? ID_CONNECTION) = true -> In c (hdr_update old fresh).
+Proof. exact reval_connection_of_304_is_honoured. Qed.
+Print Assumptions C04_connection_field_of_304_is_merged.
+
+(* the index-tracking merge used by the end-to-end correspondence is that update *)
+Theorem C04_merge_model_is_update : forall old fresh, map snd (merged_tagged old fresh) = hdr_update old fresh.
+Proof. exact merged_tagged_is_update. Qed.
+Print Assumptions C04_merge_model_is_update.
 
 (* the table still flags the standard hop-by-hop fields (re-evaluated against the regenerated table) *)
 Theorem C04_table_flags_standard_hop_by_hop : forallb is_hopbyhop std_hop_ids = true.
@@ -71,3 +93,12 @@ Example C04_member_example :
   is_member (map N.of_nat [32;44;32;120;45;70;79;79;32;9;44;44;99;108;111;115;101]%nat)
             (map N.of_nat [88;45;102;111;111]%nat) = true.
 Proof. vm_compute. reflexivity. Qed.
+
+(* the property is REFUTED on the revalidation path (known finding C04-reval-stored-hop-fields): a field of the
+   stored response that its own Connection field nominated is relayed after a 304 with a different Connection
+   field has been merged; the witness is replayed against the running proxy by the check *)
+Theorem C04_revalidated_stored_field_refuted :
+  exists old fresh e, In e old /\ is_member (conn_value old) (h_name e) = true /\
+                      In e (resp_filter false (hdr_update old fresh)).
+Proof. exact reval_stored_field_refuted. Qed.
+Print Assumptions C04_revalidated_stored_field_refuted.
